@@ -31,14 +31,18 @@ PROPS = {
     },
     "C11": {
         "props_file": "Props/C11.v",
-        "run_files": ["Run/CaseC11.v", "Run/CaseC12.v"],
+        "run_files": ["Run/CaseC11.v", "Run/CaseC12.v", "Run/CaseConn.v"],
         "imports": ["Lib.Bytes", "Run.CaseC11"],
         "case_type": "c11case",
         "checkers": {"H": "check_c11", "D": "check_c11"},
         "harness": [{"bin": "hash"},
                     # the hash as it is USED towards the session service: the real MojangAdapter's request
                     {"bin": "mojang", "crate": "harness-net", "case_type": "c12case", "imports": ["Lib.Bytes", "Run.CaseC12"],
-                     "checkers": {"REQ": "check_c12"}, "shard": 50}],
+                     "checkers": {"REQ": "check_c12"}, "shard": 50},
+                    # ... computed over THIS connection's shared secret and the server key: the Auth call of the real handler
+                    {"bin": "conn", "env": {"VERIF_FAMILIES": "C01"}, "case_type": "conn_case",
+                     "imports": ["Lib.Bytes", "Codec.Desc", "Conn.Types", "Conn.Prog", "Conn.Sem1", "Run.CaseConn"],
+                     "checkers": {"C01": "check_c01"}, "shard": 40}],
         "quick_scale": 1, "thorough_scale": 12, "search_factor": 6,
         "ties": ["Crypto/McHash.v: hand model of num-bigint 0.4.6 from_signed_bytes_be / to_str_radix(16) and of "
                  "passage-adapters/src/authentication/mod.rs minecraft_hash, tied by the hash binary (families H, D)", "mojang binary (REQ): the serverId the real MojangAdapter puts into its hasJoined request vs the Spec-level hash of the CONFIGURED server id, shared secret and key (ids with surrounding whitespace, NUL, mixed case included)"],
@@ -137,8 +141,8 @@ PROPS = {
         "run_files": ["Run/CaseConn.v", "Run/CaseIp.v", "Run/CaseLocale.v"],
         "imports": ["Lib.Bytes", "Codec.Desc", "Conn.Types", "Conn.Prog", "Conn.Sem1", "Run.CaseConn"],
         "case_type": "conn_case",
-        "checkers": {"BASE": "check_c03", "C03": "check_c03", "C10": "check_c03", "C07": "check_c03"},
-        "harness": [{"bin": "conn", "env": {"VERIF_FAMILIES": "BASE,C03,C10,C07"}}, {"bin": "iptext", "case_type": "ipcase", "imports": ["Lib.Bytes", "Lib.IpText", "Run.CaseIp"], "checkers": {"SHOW": "check_ip", "PARSE": "check_ip", "SOCK": "check_ip"}, "shard": 300}, {"bin": "locale", "case_type": "loccase", "imports": ["Lib.Bytes", "Adapters.Locale", "Run.CaseLocale"], "checkers": {"LOC": "check_locale"}, "shard": 60}],
+        "checkers": {"BASE": "check_c03", "C03": "check_c03", "C10": "check_c03", "C07": "check_c03", "WCAN": "check_c03"},
+        "harness": [{"bin": "conn", "env": {"VERIF_FAMILIES": "BASE,C03,C10,C07,WCAN"}}, {"bin": "iptext", "case_type": "ipcase", "imports": ["Lib.Bytes", "Lib.IpText", "Run.CaseIp"], "checkers": {"SHOW": "check_ip", "PARSE": "check_ip", "SOCK": "check_ip"}, "shard": 300}, {"bin": "locale", "case_type": "loccase", "imports": ["Lib.Bytes", "Adapters.Locale", "Run.CaseLocale"], "checkers": {"LOC": "check_locale"}, "shard": 60}],
         "shard": 40,
         "quick_scale": 1, "thorough_scale": 8, "search_factor": 4,
         "ties": ["conn binary: real Connection::listen on a scripted transport/client/adapters in a paused runtime vs Conn.Sem1.run1 (sends, calls, outcome, virtual ms)",
@@ -156,8 +160,8 @@ PROPS = {
         "run_files": ["Run/CaseConn.v"],
         "imports": ["Lib.Bytes", "Codec.Desc", "Conn.Types", "Conn.Prog", "Conn.Sem1", "Run.CaseConn"],
         "case_type": "conn_case",
-        "checkers": {"BASE": "check_c06", "C06": "check_c06", "C01": "check_c06", "C02": "check_c06", "C07": "check_c06", "C10": "check_c06", "C03": "check_c06"},
-        "harness": [{"bin": "conn", "env": {"VERIF_FAMILIES": "BASE,C06,C01,C02,C07,C10,C03"}}],
+        "checkers": {"BASE": "check_c06", "C06": "check_c06", "C01": "check_c06", "C02": "check_c06", "C07": "check_c06", "C10": "check_c06", "C03": "check_c06", "WCAN": "check_c06"},
+        "harness": [{"bin": "conn", "env": {"VERIF_FAMILIES": "BASE,C06,C01,C02,C07,C10,C03,WCAN"}}],
         "shard": 40,
         "quick_scale": 1, "thorough_scale": 8, "search_factor": 4,
         "ties": ["conn binary: real Connection::listen on a scripted transport/client/adapters in a paused runtime vs Conn.Sem1.run1 (sends, calls, outcome, virtual ms)",
@@ -194,11 +198,11 @@ PROPS = {
     },
     "C10": {
         "props_file": "Props/C10.v",
-        "run_files": ["Run/CaseConn.v", "Run/CaseCookie.v", "Run/CaseConnJson.v"],
+        "run_files": ["Run/CaseConn.v", "Run/CaseCookie.v", "Run/CaseConnJson.v", "Run/CaseLst.v"],
         "imports": ["Lib.Bytes", "Codec.Desc", "Conn.Types", "Conn.Prog", "Conn.Sem1", "Run.CaseConn", "Run.CaseConnJson"],
         "case_type": "conn_case",
         "checkers": {"BASE": "check_c10_json", "C10": "check_c10_json", "C02": "check_c10_json", "C03": "check_c10_json"},
-        "harness": [{"bin": "conn", "env": {"VERIF_FAMILIES": "BASE,C10,C02,C03"}}, {"bin": "cookie", "case_type": "ckcase", "imports": ["Lib.Bytes", "Conn.Types", "Run.CaseCookie"], "checkers": {"SG": "check_cookie", "CK": "check_cookie", "JS": "check_cookie", "JP": "check_cookie"}, "shard": 100}],
+        "harness": [{"bin": "conn", "env": {"VERIF_FAMILIES": "BASE,C10,C02,C03"}}, {"bin": "listener", "crate": "harness-app", "families": ["ADM"], "env": {"VERIF_FAMILY": "ADM"}, "case_type": "lstcase", "imports": ["Lib.Bytes", "Limiter.Limiter", "Listener.Machine", "Listener.Wire", "Run.CaseLst"], "checkers": {"ADM": "check_c15"}, "shard": 20}, {"bin": "cookie", "case_type": "ckcase", "imports": ["Lib.Bytes", "Conn.Types", "Run.CaseCookie"], "checkers": {"SG": "check_cookie", "CK": "check_cookie", "JS": "check_cookie", "JP": "check_cookie"}, "shard": 100}],
         "shard": 40,
         "quick_scale": 1, "thorough_scale": 8, "search_factor": 4,
         "ties": ["cookie binary JS/JP: the real serde_json to_vec / from_slice on AuthCookie and SessionCookie vs the Gallina serde of Crypto/CookieJson.v (writer bytes equal; parser verdict and record equal whenever the model decides), and the serde tables recorded in every conn case vs the same model (Run/CaseConnJson.v)", "conn binary: real Connection::listen on a scripted transport/client/adapters in a paused runtime vs the byte-level model Conn.Sem2.run2 on the delivered timed segments (sends, calls, outcome, virtual ms), with no class exempted",
